@@ -3,7 +3,7 @@
     Model: AnalysisDefs.v (faithful transcription of the classification core of src/analyser.cpp);
     executable specification: AnalysisSpec.v (the same predicate is evaluated on the real AnalyserModel). *)
 From Coq Require Import List Bool Arith Permutation.
-From LC Require Import AnalysisDefs AnalysisSpec AnalysisProofs AnalysisWfProofs AnalysisOwnProofs AnalysisRenameProofs AnalysisConfluenceProofs AnalysisDefinerProofs AnalysisDepProofs AnalysisWitness.
+From LC Require Import AnalysisDefs AnalysisSpec AnalysisProofs AnalysisWfProofs AnalysisOwnProofs AnalysisRenameProofs AnalysisConfluenceProofs AnalysisDefinerProofs AnalysisDepProofs AnalysisTopoProofs AnalysisWitness AnalysisOrderWitness.
 Import ListNotations.
 
 (** ** Termination of the do/while over mInternalEquations *)
@@ -118,26 +118,39 @@ Print Assumptions C05_result_wf_dependencies_fixed_witness.
     (wf_deps_complete), and contains nothing else - only classes the document equation reads, never a class the
     equation computes, only classes of variables of the result (wf_deps_sound).
     Hypotheses: [dependency_fix = true] (without the repair the statement is false,
-    C05_result_wf_dependencies_refuted_when_unfixed); [unique_ids s], the abstract system gives different ids to
+    C05_result_wf_dependencies_refuted); [unique_ids s], the abstract system gives different ids to
     different equations (the specification looks a document equation up by id; the generator and the importer number
-    equations consecutively); [states_have_odes s], inherited from the typing invariant the proof goes through (it
-    excludes C05-state-without-equation; not believed to be necessary for this clause, not removed). *)
+    equations consecutively).  No hypothesis on the states: the clauses hold as well for the results with a state
+    that no equation computes (C05-state-without-equation). *)
 Theorem C05_result_wf_dependencies_complete : forall s r,
-  analyse s = Done r -> valid_type (r_type r) = true -> dependency_fix = true -> unique_ids s -> states_have_odes s ->
+  analyse s = Done r -> valid_type (r_type r) = true -> dependency_fix = true -> unique_ids s ->
   wf_deps_complete s r = true.
 Proof. exact AnalysisDepProofs.result_wf_deps_complete. Qed.
 Print Assumptions C05_result_wf_dependencies_complete.
 
 Theorem C05_result_wf_dependencies_sound : forall s r,
-  analyse s = Done r -> valid_type (r_type r) = true -> dependency_fix = true -> unique_ids s -> states_have_odes s ->
+  analyse s = Done r -> valid_type (r_type r) = true -> dependency_fix = true -> unique_ids s ->
   wf_deps_sound s r = true.
 Proof. exact AnalysisDepProofs.result_wf_deps_sound. Qed.
 Print Assumptions C05_result_wf_dependencies_sound.
 
-(* NOT PROVED: forall s r, analyse s = Done r -> valid_type (r_type r) = true -> wf_topological false r = true
-   ("direct equations can be ordered so that dependencies come first").  Evaluated on the real AnalyserModel and on the model's own
-   result for every generated system on every run (no failure of clause 5 has been observed); the ordering
-   constraints THROUGH NLA systems (clause 51) do fail on the library, see design_notes/C05.md. *)
+(** direct_equations_topological_order (clause 5): in every valid result the equations that are solved directly
+    (all the equations that are not part of an NLA system) can be ordered so that each comes after the direct,
+    non-ODE equations it depends on; the order in which check() typed the variables they compute is such an order
+    (AnalysisTopoProofs: the rank is attached to the computed variable, check() gives a fresh maximal rank to the
+    variable it types, and nothing depended on a variable while it was unknown).
+    What is and is not an ordering constraint (AnalysisSpec.order_edges): a dependency on an equation of type ODE
+    is none - states are inputs of the computation, so ODE systems may be cyclic through their states (x' = y,
+    y' = x); a dependency on a variable computed by an NLA system is none for this clause.
+    Hypotheses as for the dependency clauses ([dependency_fix = true] is what excludes an equation depending on
+    the variable it computes itself).
+    NOT PROVED, and false on the library: the same with NLA equations as nodes (wf_topological true, clause 51 of
+    wf_failures; see design_notes/C05.md). *)
+Theorem C05_direct_equations_topological_order : forall s r,
+  analyse s = Done r -> valid_type (r_type r) = true -> dependency_fix = true -> unique_ids s ->
+  wf_topological false r = true.
+Proof. exact AnalysisTopoProofs.result_wf_topological. Qed.
+Print Assumptions C05_direct_equations_topological_order.
 
 (** ** Invariance *)
 
@@ -198,8 +211,42 @@ Theorem C05_variable_order_refuted :
 Proof. exact AnalysisWitness.twin_witness. Qed.
 Print Assumptions C05_variable_order_refuted.
 
-(* NOT PROVED (the _partial of the refutation above): if the first pass alone gives a type to every equation
-   (first_pass_complete s = Some true) then every re-ordering of the equations has the same classification.
+(** What the _partial can claim at most.  Read literally ("the same classification" = equal results) it is refuted
+    even when the first pass is complete in both orders: the roles agree, the variable list is permuted, because
+    the internal variables are created in the order in which the equations mention them ... *)
+Theorem C05_classification_perm_invariant_partial_as_lists_refuted :
+  same_system_reordered plain_a plain_b /\
+  first_pass_complete plain_a = Some true /\ first_pass_complete plain_b = Some true /\
+  classification_of plain_a = Some (MAlgebraic, [(1, RoCompConst); (0, RoCompConst)]) /\
+  classification_of plain_b = Some (MAlgebraic, [(0, RoCompConst); (1, RoCompConst)]).
+Proof. exact AnalysisOrderWitness.plain_witness. Qed.
+Print Assumptions C05_classification_perm_invariant_partial_as_lists_refuted.
+
+(** ... and its hypothesis is itself order dependent: with two equivalent variables in one component, whether the
+    first pass is complete depends on the order of the equations (here the roles still agree). *)
+Theorem C05_first_pass_completeness_order_dependent :
+  same_system_reordered held_a held_b /\
+  first_pass_complete held_a = Some true /\ first_pass_complete held_b = Some false /\
+  classification_of held_a = Some (MAlgebraic, [(0, RoCompConst); (1, RoCompConst)]) /\
+  classification_of held_b = Some (MAlgebraic, [(1, RoCompConst); (0, RoCompConst)]).
+Proof. exact AnalysisOrderWitness.held_witness. Qed.
+Print Assumptions C05_first_pass_completeness_order_dependent.
+
+(* NOT PROVED (classification_perm_invariant_partial, the _partial of the refutation above): if the first pass alone
+   gives a type to every equation (first_pass_complete s = Some true) then every re-ordering of the equations has
+   the same classification UP TO THE ORDER OF THE VARIABLE LIST (same model type, same role for every class).
+   Why it is not a corollary of C05_pass1_confluent: (i) analyseComponent creates the internal variables in the
+   order in which the equations first mention them, so a re-ordered system has its internal variables, and hence
+   the positions held by every internal equation and the order of the result's variable list, permuted - the
+   statement needs a bijection on positions carried through build, analyse_asts, the loop and the packaging, and
+   "same classification" is "the same role for every class", not equal lists; (ii) C05_pass1_confluent gives the
+   same KNOWN variables, not the same types: one needs that under completeness the pairing equation <-> computed
+   variable is forced (the first firing that deviates from the complete run would compute a variable whose own
+   equation has not fired, which leaves that equation with no unknown and the run incomplete) and that the
+   true-constant / variable-based-constant flags then agree; (iii) with two equivalent variables in one component
+   the variable held by the internal variable (first mention) and therefore the name test variableOnLhsRhs depend
+   on the order, so the first pass of the re-ordered system need not be complete and the equation is then typed by
+   the second pass instead.  None of the three is done.
    Evidence: exhaustive over all one-component systems with <= 4 classes and <= 3 equations / <= 3 classes and <= 4
    equations drawn from 5 shapes (ocaml/analysis/driver.ml: search; 0 counter-examples among 8202 + 1630 order-dependent
    systems), and every generated group of every run (checks/c05.py). *)
